@@ -39,6 +39,7 @@ SKELS = [
     dict(name="sz-two-blocks", text="N{[<][<]CC[>][>]}|schulz_zimm(60,50)|{[<][<]CO[>][>]}|schulz_zimm(70,50)|F", hi=45),
     dict(name="sz-double-bond-between-descriptor-atoms", text="N{[<][<]C=C[>][>]}|schulz_zimm(60,50)|O", hi=66),
     dict(name="sz-two-open-ends-two-endgroups", text="{[][<]CC(C[<])[>]; [>]O, [>]N, [<]F[]}|schulz_zimm(60,50)|", hi=45),
+    dict(name="sz-dollar-blocks-saturated-linker", text="{[][$]CC[$]; [$]F[$]}|schulz_zimm(60,50)|C(C)(C)C{[$][$]CCC[$]; [$]Br[]}|schulz_zimm(60,50)|", hi=40),
     dict(name="sz-branch-unit", text="N{[<][<]CC(C)[>][>]}|schulz_zimm(60,50)|[Si]", hi=80),
 ]
 
